@@ -33,9 +33,11 @@
 (* UNSPECIFIED (executed, any outcome that is a result or a ParseError is  *)
 (* accepted): one-character names ("A: b": re_field wants two); a          *)
 (* white-space-only last line without newline; " ." followed by blanks;    *)
-(* lines containing white space other than blank / tab (CR, VT, FF,        *)
-(* FS..US, NEL, NBSP, U+2000.., the regular expressions use \s); input     *)
-(* that is not valid in the reader's encoding; iterating a reader twice.   *)
+(* white space other than blank / tab (CR, VT, FF, FS..US, NEL, NBSP,      *)
+(* U+2000..) at the beginning or end of a line or of a value (the regular  *)
+(* expressions strip \s there; strictly inside a value it is ordinary      *)
+(* text, class X); input that is not valid in the reader's encoding;       *)
+(* iterating a reader twice.                                               *)
 (*                                                                         *)
 (* MODEL.  Two levels.                                                     *)
 (* (1) Character level: a line body is a sequence of RUNS [c, n] = n       *)
@@ -133,32 +135,36 @@ Classify(rs, nl) ==
                   ELSE Res("Junk", 0, 0, 0)
 
 \* ---- declarative reading, character by character (ESpec only: short lines)
-ClsAt(rs, o) == rs[CHOOSE i \in 1..Len(rs) : OffR(rs, i) <= o /\ o < OffR(rs, i + 1)].c
-AllBlank(rs, a, b) == \A o \in a..b : ClsAt(rs, o) = "S"
-HasNameAt(rs, k) == /\ k >= 1 /\ k < Tot(rs)
-                    /\ ClsAt(rs, 0) = "L"
-                    /\ \A o \in 0..(k - 1) : ClsAt(rs, o) \in NameCls
-                    /\ ClsAt(rs, k) = "C"
+RECURSIVE Expand(_)
+Expand(rs) == IF rs = <<>> THEN <<>> ELSE [i \in 1..Head(rs).n |-> Head(rs).c] \o Expand(Tail(rs))
+\* E = Expand(rs): E[o + 1] is the class of the character at offset o
+AllBlank(E, a, b) == \A o \in a..b : E[o + 1] = "S"
+HasNameAt(E, k) == /\ k >= 1 /\ k < Len(E)
+                   /\ E[1] = "L"
+                   /\ \A o \in 0..(k - 1) : E[o + 1] \in NameCls
+                   /\ E[k + 1] = "C"
 ShapeOK(rs, nl) ==
   LET r == Classify(rs, nl)
-      T == Tot(rs)
-  IN CASE r.c = "Blank"  -> AllBlank(rs, 0, T - 1) /\ nl
-       [] r.c = "Field"  -> /\ r.nlen >= 2 /\ HasNameAt(rs, r.nlen)
-                            /\ r.nlen + 1 <= r.lo /\ r.lo <= r.hi /\ r.hi <= T
-                            /\ AllBlank(rs, r.nlen + 1, r.lo - 1) /\ AllBlank(rs, r.hi, T - 1)
-                            /\ (r.lo < r.hi => ClsAt(rs, r.lo) # "S" /\ ClsAt(rs, r.hi - 1) # "S")
-                            /\ (r.lo = r.hi => r.lo = r.nlen + 1)
-       [] r.c = "Cont"   -> /\ T > 0 /\ ClsAt(rs, 0) = "S" /\ r.lo < r.hi /\ r.hi <= T
-                            /\ AllBlank(rs, 0, r.lo - 1) /\ AllBlank(rs, r.hi, T - 1)
-                            /\ ClsAt(rs, r.lo) # "S" /\ ClsAt(rs, r.hi - 1) # "S"
-                            /\ ~(r.hi = r.lo + 1 /\ ClsAt(rs, r.lo) = "P")
-       [] r.c = "Dot"    -> /\ r.lo >= 1 /\ r.hi = r.lo + 1 /\ r.hi = T
-                            /\ ClsAt(rs, r.lo) = "P" /\ AllBlank(rs, 0, r.lo - 1)
-       [] r.c = "Junk"   -> T > 0 /\ ClsAt(rs, 0) # "S" /\ ~\E k \in 1..(T - 1) : HasNameAt(rs, k)
-       [] r.c = "Unspec" -> \/ AllBlank(rs, 0, T - 1) /\ ~nl
-                            \/ HasNameAt(rs, 1)
-                            \/ \E o \in 1..(T - 2) : /\ ClsAt(rs, o) = "P"
-                                                     /\ AllBlank(rs, 0, o - 1) /\ AllBlank(rs, o + 1, T - 1)
+      E == Expand(rs)
+      T == Len(E)
+  IN /\ T = Tot(rs)
+     /\ CASE r.c = "Blank"  -> AllBlank(E, 0, T - 1) /\ nl
+          [] r.c = "Field"  -> /\ r.nlen >= 2 /\ HasNameAt(E, r.nlen)
+                               /\ r.nlen + 1 <= r.lo /\ r.lo <= r.hi /\ r.hi <= T
+                               /\ AllBlank(E, r.nlen + 1, r.lo - 1) /\ AllBlank(E, r.hi, T - 1)
+                               /\ (r.lo < r.hi => E[r.lo + 1] # "S" /\ E[r.hi] # "S")
+                               /\ (r.lo = r.hi => r.lo = r.nlen + 1)
+          [] r.c = "Cont"   -> /\ T > 0 /\ E[1] = "S" /\ r.lo < r.hi /\ r.hi <= T
+                               /\ AllBlank(E, 0, r.lo - 1) /\ AllBlank(E, r.hi, T - 1)
+                               /\ E[r.lo + 1] # "S" /\ E[r.hi] # "S"
+                               /\ ~(r.hi = r.lo + 1 /\ E[r.lo + 1] = "P")
+          [] r.c = "Dot"    -> /\ r.lo >= 1 /\ r.hi = r.lo + 1 /\ r.hi = T
+                               /\ E[r.lo + 1] = "P" /\ AllBlank(E, 0, r.lo - 1)
+          [] r.c = "Junk"   -> T > 0 /\ E[1] # "S" /\ ~\E k \in 1..(T - 1) : HasNameAt(E, k)
+          [] r.c = "Unspec" -> \/ AllBlank(E, 0, T - 1) /\ ~nl
+                               \/ HasNameAt(E, 1)
+                               \/ \E o \in 1..(T - 2) : /\ E[o + 1] = "P"
+                                                        /\ AllBlank(E, 0, o - 1) /\ AllBlank(E, o + 1, T - 1)
 
 RECURSIVE MergeRuns(_)
 MergeRuns(rs) == IF Len(rs) <= 1 THEN rs
